@@ -212,6 +212,11 @@ func runC07(c *eng.Ctx) {
 	}
 	c.Floor(4)
 
+	// ---- R07.8 acquire/release pairing
+	c.Rule("R07.8", "K2")
+	ruleLockPairing(c, "server/failover.go")
+	c.Floor(2)
+
 	// ---- R07.7 failover hygiene
 	c.Rule("R07.7", "K3")
 	c.WhoMayCall("resetFailovers", []string{"server.metadataAPI.resetFailovers"}, []string{"server.(*metadataAPI).Reset", "server.(*metadataAPI).LostLeadership"}, []string{"server.(*metadataAPI).Reset", "server.(*metadataAPI).LostLeadership"})
